@@ -61,6 +61,19 @@ def run(ctx, prop):
                     except Exception as e:
                         ctx.stage_errors.append(("dynprobe map", f"{type(e).__name__}: {e}"))
                         return
+                    # the goal description announced with the observation names the re-labelled addresses
+                    import re
+                    desc0 = A["goal"].get("description", "")
+                    try:
+                        exp_desc = re.sub(r"\b(?:[0-9]{1,3}\.){3}[0-9]{1,3}\b",
+                                          lambda mm: str(g._ip_mapping[IP(mm.group(0))]) if IP(mm.group(0)) in g._ip_mapping else mm.group(0), desc0)
+                    except Exception:
+                        exp_desc = None
+                    got_desc = doc.get("message", {}).get("goal_description")
+                    if exp_desc is not None and got_desc is not None and got_desc != exp_desc:
+                        ctx.violations.append({"key": f"goal description not re-labelled ({what.split(' of ')[0].split(' after ')[0]})",
+                                               "what": f"{what}: the announced goal description is {got_desc!r}, the configured description read through the published address map is {exp_desc!r}",
+                                               "replay": replay})
                     if not exp_ctrl <= ctrl or not exp_known <= known:
                         ctx.violations.append({"key": f"start position not honoured after re-labelling ({what})",
                                                "what": f"{what}: controlled {sorted(ctrl)} / known {sorted(known)} do not contain the configured start position read through the published address map ({sorted(exp_ctrl)} / {sorted(exp_known)})",
